@@ -679,6 +679,9 @@ func (e *ev) checkParamEnqueue(c *core.Ctx, fn *ssa.Function, pi int, sent ssa.V
 					if isPbytes(x, "Get") {
 						return core.Barrier
 					}
+					if isLenOrCapCall(x) {
+						return core.Continue // the length of the caller's own slice header: the memory is not touched
+					}
 					for _, op := range x.Operands(nil) {
 						if *op == nil {
 							continue
@@ -789,7 +792,7 @@ func (e *ev) checkForwardedClone(c *core.Ctx, fn *ssa.Function, bi, pi int, name
 							}
 						}
 					}
-					if cc2 := core.CallCommon(x); cc2 != nil && !isPbytes(x, "Put") {
+					if cc2 := core.CallCommon(x); cc2 != nil && !isPbytes(x, "Put") && !isLenOrCapCall(x) {
 						for _, a := range cc2.Args {
 							for _, oo := range sliceOrigins(a) {
 								for _, o := range origins {
@@ -971,24 +974,72 @@ func runNoEscapeAfterPut(c *core.Ctx, R string) {
 					}
 				}
 			}
-			escapes := func(ret *ssa.Return) bool {
-				for _, r := range ret.Results {
-					if derived[core.Unwrap(r)] {
+			// slices that share the backing array of the slice being put (other views of the same buffer)
+			putOrigins := map[ssa.Value]bool{}
+			if al, ok := obj.(*ssa.Alloc); ok && al.Referrers() != nil {
+				for _, ref := range *al.Referrers() {
+					if st, ok := ref.(*ssa.Store); ok && st.Addr == ssa.Value(al) {
+						for _, o := range sliceOrigins(st.Val) {
+							if _, isC := o.(*ssa.Const); !isC {
+								putOrigins[o] = true
+							}
+						}
+					}
+				}
+			}
+			aliases := func(v ssa.Value) bool {
+				if derived[core.Unwrap(v)] {
+					return true
+				}
+				if _, isSlice := v.Type().Underlying().(*types.Slice); !isSlice || len(putOrigins) == 0 {
+					return false
+				}
+				for _, o := range sliceOrigins(v) {
+					if putOrigins[o] {
 						return true
 					}
+				}
+				return false
+			}
+			// a use of the memory after the Put: returned to the caller, or handed to another call
+			useOf := func(x ssa.Instruction) bool {
+				if x == in {
+					return false
+				}
+				switch y := x.(type) {
+				case *ssa.Return:
+					for _, r := range y.Results {
+						if aliases(r) {
+							return true
+						}
+					}
+				case *ssa.Call:
+					if isLenOrCapCall(x) || isPoolPut(x) {
+						return false
+					}
+					for _, a := range y.Call.Args {
+						if aliases(a) {
+							return true
+						}
+					}
+				case *ssa.Send:
+					return aliases(y.X)
 				}
 				return false
 			}
 			var bad ssa.Instruction
 			if _, isDefer := in.(*ssa.Defer); isDefer {
 				core.AllInstrs(fn, func(x ssa.Instruction) {
-					if ret, ok := x.(*ssa.Return); ok && escapes(ret) && bad == nil {
+					if ret, ok := x.(*ssa.Return); ok && useOf(ret) && bad == nil {
 						bad = x
 					}
 				})
 			} else {
 				bad, _ = core.Search(in, nil, func(x ssa.Instruction) core.Action {
-					if ret, ok := x.(*ssa.Return); ok && escapes(ret) {
+					if isPbytes(x, "Get") {
+						return core.Barrier // the variable holds a new buffer from here on
+					}
+					if useOf(x) {
 						return core.Target
 					}
 					return core.Continue
@@ -996,10 +1047,19 @@ func runNoEscapeAfterPut(c *core.Ctx, R string) {
 			}
 			name := "put/" + core.FName(fn) + "/no-escape"
 			if bad != nil {
-				c.Bad(R, name, p.InstrPos(bad), "the function returns (a view of) the object it gives back to the pool at "+p.InstrPos(in)+": the caller reads memory that the next Get hands to another goroutine")
+				c.Bad(R, name, p.InstrPos(bad), "the function keeps using the object it gave back to the pool at "+p.InstrPos(in)+" (returns it or a view of it, or hands it to another call): that memory belongs to whoever Gets it next")
 			} else {
-				c.OK(R, name, p.InstrPos(in), "nothing derived from the pooled object is returned after the Put")
+				c.OK(R, name, p.InstrPos(in), "nothing derived from the pooled object is returned or passed on after the Put")
 			}
 		})
 	}
+}
+
+
+func isLenOrCapCall(x ssa.Instruction) bool {
+	if _, ok := core.IsBuiltinCall(x, "len"); ok {
+		return true
+	}
+	_, ok := core.IsBuiltinCall(x, "cap")
+	return ok
 }
